@@ -1,4 +1,5 @@
 import TrucModel.Proofs.VecSpec
+import TrucModel.Proofs.GenProps
 /-
   C10 — Vector conversion refuses element types of different size or alignment.
 -/
@@ -19,6 +20,36 @@ theorem C10_accept (lay : Nat × Nat) (conv : Nat → T → Option U → COut U 
   intro d c
   rw [tryConvert_refines]
   cases spec conv input [] [] <;> simp [ofSpec]
+
+/-- the refusal never hits truc's own use: the record types generated for two variants of one
+    definition have the same (modelled) layout for every capacity, so a vector of one is always
+    accepted for in-place conversion into a vector of the other -/
+theorem C10_variants_never_refused (d : Definition) (cap : Nat) (s₁ s₂ : Gen.Spec)
+    (h₁ : s₁ ∈ Gen.specs d) (h₂ : s₂ ∈ Gen.specs d)
+    (conv : Nat → T → Option U → COut U E P) (input : List T) :
+    ∀ dr c, tryConvert (Gen.recLayout cap s₁.align) (Gen.recLayout cap s₂.align) conv input ≠ .refused dr c := by
+  rw [Gen.specs_align d s₁ h₁, Gen.specs_align d s₂ h₂]
+  exact C10_accept _ conv input
+
+/-- the refusal is decided by the two layouts alone: it does not depend on the converter or on the
+    contents or length of the input -/
+theorem C10_refusal_depends_on_layouts_only (layT layU : Nat × Nat)
+    (conv₁ conv₂ : Nat → T → Option U → COut U E P) (in₁ in₂ : List T) :
+    (∃ d c, tryConvert layT layU conv₁ in₁ = .refused d c) ↔ (∃ d c, tryConvert layT layU conv₂ in₂ = .refused d c) := by
+  by_cases h : layT.1 ≠ layU.1 ∨ layT.2 ≠ layU.2
+  · constructor <;> intro _
+    · exact ⟨_, _, C10_refuse layT layU h conv₂ in₂⟩
+    · exact ⟨_, _, C10_refuse layT layU h conv₁ in₁⟩
+  · have he : layT = layU := by
+      have h' : layT.1 = layU.1 ∧ layT.2 = layU.2 := by
+        constructor
+        · exact Classical.byContradiction fun hn => h (Or.inl hn)
+        · exact Classical.byContradiction fun hn => h (Or.inr hn)
+      exact Prod.ext h'.1 h'.2
+    subst he
+    constructor
+    · rintro ⟨d, c, hd⟩; exact absurd hd (C10_accept layT conv₁ in₁ d c)
+    · rintro ⟨d, c, hd⟩; exact absurd hd (C10_accept layT conv₂ in₂ d c)
 
 example : tryConvert (E := Unit) (P := Unit) (8, 8) (8, 4) (fun _ (t : Nat) _ => .converted t none) [1, 2]
     = .refused [.inp 1, .inp 2] [] := by decide +kernel
